@@ -54,7 +54,7 @@ def blocks(tier, seed):
         out.append({"kind": "mpair", "i": i})
     # the filter_diff entry point on signed diff texts
     for i, (name, _) in enumerate(A):
-        if not name.startswith(("L2", "B2")) and (tier == "thorough" or i % 2 == 0):
+        if not name.startswith(("L2", "B2")) and (tier == "thorough" or i % 2 == 0 or name.startswith("mixed-cd")):
             out.append({"kind": "fdiff", "i": i})
     # two-step histories on one compiled ACL object, for the ACLs in which several rules match one row (their children
     # are merged per match: the merge must not leak into the compiled rules)
